@@ -5,6 +5,7 @@ import (
 	"crypto/sha256"
 	"encoding/hex"
 	"fmt"
+	"hash/crc32"
 	"math/big"
 	"sort"
 	"strings"
@@ -554,6 +555,92 @@ func TestC01(t *testing.T) {
 			}
 		}
 		gen.Exhaustive("message-level mutants: high bits of every 16-bit-on-the-wire message field, three bit positions of every signed bytes field", true)
+	})
+
+	// (1d) histories: ONE Options value serves raw-bytes and message verifications of genuine and forged quotes in any
+	// order, including calls that fail early (a damaged chain, revocation asked for without collateral). A forged quote
+	// may carry the length and the CRC-32 of the genuine one. Whatever came before, only the genuine quote is accepted.
+	gen.Prop(t, "histories-on-one-options-value", gen.N(500, 40000), func(t *rapid.T) {
+		s := gen.NewStream(rapid.Uint64().Draw(t, "content"), "c01h")
+		w := gen.NewWorld(gen.NewPKI(gen.PKISpec{Seed: rapid.SampledFrom(gen.PKISeeds).Draw(t, "pki")}), s)
+		if rapid.IntRange(0, 2).Draw(t, "defaultTimeSet") == 0 {
+			w.UseRealNow()
+		}
+		w.Build()
+		o := w.Options(gen.LvlBase, nil, nil)
+		genuine := w.Raw
+		mkForged := func(kind string) []byte {
+			b := append([]byte{}, genuine...)
+			switch kind {
+			case "body-bit":
+				b[48+s.Intn(584)] ^= byte(1 << uint(s.Intn(8)))
+			case "header-bit":
+				b[8+s.Intn(40)] ^= byte(1 << uint(s.Intn(8))) // QE SVN .. user data (the fixed fields would fail parsing)
+			case "same-length-and-crc32":
+				b[48+s.Intn(300)] ^= byte(1 + s.Intn(255))
+				gen.ForgeCRC32(b, 48+400+s.Intn(100), crc32.ChecksumIEEE(genuine))
+			case "damaged-chain":
+				i := bytes.Index(b, []byte("-----BEGIN CERTIFICATE-----"))
+				copy(b[i:], "-----BEGIN CERTIFICATE+++++")
+			}
+			return b
+		}
+		var hist []string
+		check := func(what string, isGenuine bool, v gen.Verdict) {
+			hist = append(hist, what+" -> "+v.Short())
+			want := isGenuine && !(o.CheckRevocations && !o.GetCollateral)
+			rp := map[string]any{"kind": "c01-history", "history": append([]string{}, hist...)}
+			if v.Panicked() {
+				gen.Fail(t, gen.Violation{Key: "panic@" + gen.PanicSite(v.Stack), Oracle: "verification returns a verdict", Detail: v.Panic, Replay: rp})
+			}
+			if v.Accepted() && !want {
+				gen.Fail(t, gen.Violation{Key: "history:accepts-" + strings.SplitN(what, " ", 3)[1], Oracle: "accepted => header/body signature, hash binding and QE report signature all hold on the quote given in THIS call, whatever the Options value was used for before", Detail: "history: " + strings.Join(hist, " ; "), Replay: rp})
+			}
+			if !v.Accepted() && want {
+				gen.Fail(t, gen.Violation{Key: "history:rejects-genuine", Oracle: "the genuine quote is accepted, whatever the Options value was used for before", Detail: "history: " + strings.Join(hist, " ; ") + ": " + v.String(), Replay: rp})
+			}
+		}
+		forgedKinds := []string{"body-bit", "header-bit", "same-length-and-crc32"}
+		nForged := 0
+		t.Repeat(map[string]func(*rapid.T){
+			"raw-genuine": func(t *rapid.T) {
+				gen.Eval()
+				check("raw genuine", true, gen.Call(func() error { return verify.RawTdxQuote(genuine, o) }))
+			},
+			"raw-forged": func(t *rapid.T) {
+				k := rapid.SampledFrom(append(forgedKinds, "damaged-chain")).Draw(t, "kind")
+				b := mkForged(k)
+				gen.Eval()
+				nForged++
+				check("raw "+k, false, gen.Call(func() error { return verify.RawTdxQuote(b, o) }))
+			},
+			"message-genuine": func(t *rapid.T) {
+				q, _ := gen.RefParse(genuine)
+				m := q.ToProto()
+				gen.Eval()
+				check("message genuine", true, gen.Call(func() error { return verify.TdxQuote(m, o) }))
+			},
+			"message-forged": func(t *rapid.T) {
+				k := rapid.SampledFrom(forgedKinds[:2]).Draw(t, "kind")
+				q, err := gen.RefParse(mkForged(k))
+				if err != nil {
+					t.Skip("forgery does not parse")
+				}
+				m := q.ToProto()
+				gen.Eval()
+				nForged++
+				check("message "+k, false, gen.Call(func() error { return verify.TdxQuote(m, o) }))
+			},
+			"toggle-revocation-without-collateral": func(t *rapid.T) {
+				o.CheckRevocations = !o.CheckRevocations
+				hist = append(hist, fmt.Sprintf("CheckRevocations=%v (GetCollateral stays off)", o.CheckRevocations))
+			},
+		})
+		if nForged > 0 && len(hist) >= 3 {
+			gen.NonTrivial(strings.Join(hist, ";"))
+		}
+		gen.Class(fmt.Sprintf("history:default-time-set=%v", w.NowNil))
+		gen.Sample("history", hist)
 	})
 
 	// (2) structured forgeries with a verdict known by construction.
